@@ -22,7 +22,8 @@ vars == <<setup, pre, ev, post, phase>>
 (* width facts of the model's sample alphabet (confirmed by the harness on    *)
 (* replay: the tap logs the real widths)                                      *)
 WIDE == 19968   COMB == 822   ZWSP == 8203   NARROW2 == 1078
-WmModel == << <<WIDE, 2, 0>>, <<COMB, 0, 1>>, <<ZWSP, 0, 0>> >>
+VS16 == 65039     \* variation selector-16: combining; with an emoji-capable narrow symbol the CLUSTER is wide, its first character is not
+WmModel == << <<WIDE, 2, 0>>, <<COMB, 0, 1>>, <<ZWSP, 0, 0>>, <<VS16, 0, 1>> >>
 
 Ev(op, p)      == [op |-> op, p |-> p, s |-> <<>>, pr |-> FALSE, wm |-> <<>>]
 EvM(op, p, pr) == [op |-> op, p |-> p, s |-> <<>>, pr |-> pr, wm |-> <<>>]
@@ -141,6 +142,7 @@ Families ==
                    base \in { <<>>, Fill(g[1], g[2]), FillSparse(g[1], g[2]), FillWide(g[1], g[2]) },
                    hh \in { <<>>, <<Ev("cup", <<1, g[1]>>), EvS("draw", <<WIDE>>)>>,
                             <<Ev("cup", <<1, 1>>), EvS("draw", <<WIDE, COMB, 120, COMB, COMB>>)>>,
+                            <<Ev("cup", <<1, 1>>), EvS("draw", <<9786, VS16, 120, 121>>)>>,
                             <<Ev("cup", <<1, 1>>), EvS("draw", <<WIDE>>), Ev("cup", <<1, 1>>), EvS("draw", <<113>>)>>,
                             <<Ev("cup", <<1, 1>>), EvS("draw", <<WIDE>>), Ev("cup", <<1, 2>>), EvS("draw", <<113>>)>>,
                             <<Ev("cup", <<1, 1>>), EvS("draw", <<WIDE>>), Ev("cup", <<1, 1>>), Ev("dch", <<1>>)>>,
